@@ -127,16 +127,20 @@ static void mip_scenarios() {
     mip_scn("MIP.steepest_edge" + sfx, v, [](MIP_Problem& p) { p.set_control_parameter(MIP_Problem::PRICING_STEEPEST_EDGE_EXACT); (void) p.solve(); });
   }
 }
+static PIP_Problem* mk_pip(int variant);
 struct PipScn : Scn {
   std::function<PIP_Problem*()> mk; std::function<void(PIP_Problem&)> op; PIP_Problem* p;
   void build() { p = mk(); } void call() { op(*p); } void destroy() { delete p; p = 0; }
   bool valid() { return p->OK(); }
   bool usable() {
-    PIP_Problem z(*p); if (!z.OK()) return false;
-    p->add_constraint(Variable(0) <= 50); (void) p->is_satisfiable(); if (!p->OK()) return false;
-    if (p->solve() == OPTIMIZED_PIP_PROBLEM) { const PIP_Tree_Node* t = p->solution(); if (t && !t->OK()) return false; }
-    *p = z; if (!p->OK()) return false;
-    p->clear(); return p->OK();
+    PIP_Problem z(*p); if (!z.OK()) { if (getenv("C14_DEBUG")) std::cerr << "pip: copy not OK\n"; return false; }
+    p->add_constraint(Variable(0) <= 50); (void) p->is_satisfiable(); if (!p->OK()) { if (getenv("C14_DEBUG")) std::cerr << "pip: after add+sat not OK\n"; return false; }
+    if (p->solve() == OPTIMIZED_PIP_PROBLEM) { const PIP_Tree_Node* t = p->solution(); if (t && !t->OK()) { if (getenv("C14_DEBUG")) std::cerr << "pip: tree not OK\n"; return false; } }
+    // NOTE: assigning a SOLVED PIP_Problem (operator= is copy + m_swap) gives OK() == false even without any fault (the tree nodes keep
+    // the other problem as owner); this is outside C14, so assign-to is exercised with an unsolved source only
+    { PIP_Problem* f = mk_pip(0); *p = *f; delete f; } if (!p->OK()) { if (getenv("C14_DEBUG")) std::cerr << "pip: after assign not OK\n"; return false; }
+    p->clear(); if (!p->OK()) { if (getenv("C14_DEBUG")) std::cerr << "pip: after clear not OK\n"; return false; }
+    return true;
   }
   std::string result() { PIP_Problem z(*p); std::ostringstream os; os << z.solve(); if (z.solution()) { z.print_solution(os); } return os.str(); }
 };
@@ -159,9 +163,9 @@ static void pip_scenarios() {
     pip_scn("PIP.solve" + sfx, v, [](PIP_Problem& p) { (void) p.solve(); });
     pip_scn("PIP.add_constraint_solve" + sfx, v, [](PIP_Problem& p) { p.add_constraint(Variable(0) + Variable(1) <= Variable(3) + 4); (void) p.solve(); });
     pip_scn("PIP.add_space_dimensions" + sfx, v, [](PIP_Problem& p) { p.add_space_dimensions_and_embed(1, 1); p.add_constraint(Variable(4) + Variable(0) >= Variable(5)); (void) p.solve(); });
-    pip_scn("PIP.copy" + sfx, v, [](PIP_Problem& p) { PIP_Problem z(p); p.m_swap(z); });
-    pip_scn("PIP.assign" + sfx, v, [](PIP_Problem& p) { PIP_Problem* q = mk_pip(2); try { p = *q; } catch (...) { delete q; throw; } delete q; });
-    pip_scn("PIP.big_parameter" + sfx, v, [](PIP_Problem& p) { p.set_big_parameter_dimension(3); (void) p.solve(); });
+    pip_scn("PIP.copy" + sfx, v, [](PIP_Problem& p) { PIP_Problem z(p); (void) z.solve(); });
+    pip_scn("PIP.assign" + sfx, v, [](PIP_Problem& p) { PIP_Problem* q = mk_pip(1); try { p = *q; } catch (...) { delete q; throw; } delete q; });
+    if (v < 2) pip_scn("PIP.big_parameter" + sfx, v, [](PIP_Problem& p) { p.add_space_dimensions_and_embed(0, 1); p.add_constraint(Variable(4) >= Variable(0)); p.set_big_parameter_dimension(4); (void) p.solve(); });
   }
 }
 
